@@ -2,7 +2,7 @@
    Statements only; every proof is `exact <lemma>`.  All structural, no axioms. *)
 From Coq Require Import List Arith Bool.
 Import ListNotations.
-From ByC Require Import Model.Runs Proofs.Runs.
+From ByC Require Import Model.Runs Proofs.Runs Proofs.RunsCode.
 
 Theorem C08_same_length : forall n l, length (minrun n l) = length l.
 Proof. exact minrun_length. Qed.
@@ -52,3 +52,15 @@ Theorem C08_monotone : forall n n' l l', n <= n' ->
   forall i, nth i (minrun n' l) false = true -> nth i (minrun n l') false = true.
 Proof. exact minrun_mono. Qed.
 Print Assumptions C08_monotone.
+
+(* the code-shaped model (padded difference -> transition indices -> (on, off) pairs by parity ->
+   clearing of the short slices, burst/utils.py:44-57) IS the one-pass filter, for every input *)
+Theorem C08_code_shaped_model_equals_one_pass_filter : forall n l, minrun_code n l = minrun n l.
+Proof. exact minrun_code_eq. Qed.
+Print Assumptions C08_code_shaped_model_equals_one_pass_filter.
+
+(* the (on, off) pairs are exactly the maximal runs of True *)
+Theorem C08_pairs_are_the_maximal_runs : forall l a b,
+  In (a, b) (pairs (flatnonzero 0 (diff_pad false l))) <-> maximal_run l a b.
+Proof. exact pairs_maximal_runs. Qed.
+Print Assumptions C08_pairs_are_the_maximal_runs.
